@@ -392,7 +392,7 @@ def s_sim(draw, max_steps=60):
             a = T * draw(st.floats(0, 0.3))
             rules.append({'rule': 'constant', 'start': G.qty('Time', a, draw(G.s_unit('Time'))),
                           'duration': G.qty('TimeInterval', T * draw(st.floats(0.05, 0.2)), draw(G.s_unit('TimeInterval'))),
-                          'value': draw(st.floats(-1, 1))})
+                          'value': G._duty(draw(st.floats(-1, 1)))})
     case['control'] = rules
     case['history'] = [dict(run, control=True)]
     return case
